@@ -1806,6 +1806,12 @@ class ContentDir(Dir):
     type_name = "redun.ContentDir"
     classes = ContentFileClasses()
 
+    def _calc_hash(self, files: Optional[list[File]] = None) -> str:
+        # Hash the member files by their content (as ContentFiles). The filesystem's
+        # `iter_file_hashes()` used by `Dir` yields quick hashes based on size and mtime.
+        file_hashes = [file.hash for file in self]
+        return hash_struct([self.type_basename, self.path] + sorted(file_hashes))
+
 
 class ContentStagingFile(StagingFile):
     type_basename = "ContentStagingFile"
